@@ -84,6 +84,8 @@ def tasks(tier, seed):
     for layout in ([1], [1, 1], [2], [1, 2], [2, 1, 1], [1, 2, 2]):
         for rows in (1, 2, 3):
             out.append({"fn": "custom", "kwargs": {"layout": layout, "rows": rows}, "label": f"custom/{'-'.join(map(str, layout))}/rows={rows}"})
+    for rows, lead, trail in ((2, 0, 1), (3, 1, 0), (3, 0, 1), (2, 1, 1)):
+        out.append({"fn": "custom_file", "kwargs": {"rows": rows, "lead": lead, "trail": trail}, "label": f"custom_file/rows={rows},lead={lead},trail={trail}"})
     out.append({"fn": "dimnames", "kwargs": {}, "label": "dimnames"})
     return out
 
@@ -324,6 +326,45 @@ def custom(layout, rows):
     vx.prove(f"C05/parallel_array/custom/{lab}", vx.all_of(okp))
 
 
+def _custom_from_table(table, lead, ncol):
+    """CustomMode.build on a table (the table file stubbed or real); returns the per-run parameter cells."""
+    from pyxel.observation import ParameterValues
+    from pyxel.observation.misc import CustomMode
+
+    params = [ParameterValues(key=KEYS[k], values="_") for k in range(ncol)]
+    mode = CustomMode.build(parameters=params, custom_file=table, custom_columns=slice(lead, lead + ncol - 1))  # label-based, inclusive (column_range of the configuration)
+    items = mode.get_parameters_item(processor=None)
+    return [[it.run_index, it.index] + [it.parameters.get(KEYS[k]) for k in range(ncol)] for it in items]
+
+
+def custom_file(rows, lead, trail):
+    """Custom mode built from a table file (CustomMode.build) that is wider than the selected column range: `lead` columns in front
+    and `trail` columns behind the used ones hold remarks that may be missing (each cell symbolic: present or empty).  One run per
+    table row, each with the cells of its own row, whatever the unused columns hold."""
+    import pandas as pd
+
+    ncol = 2
+    cells = [[vx.integer(f"c{r}_{c}") for c in range(ncol)] for r in range(rows)]
+    holes = [[bool(vx.boolean(f"empty{r}_{c}")) for c in range(lead + trail)] for r in range(rows)]
+    data = []
+    for r in range(rows):
+        extra = [float("nan") if h else 7.0 + r for h in holes[r]]
+        data.append(extra[:lead] + cells[r] + extra[lead:])
+    df = pd.DataFrame(data, dtype=object)
+    from vx.patching import Patch
+
+    with Patch() as p:
+        import pyxel
+
+        p.attr(pyxel, "load_table", lambda filename, **kw: df.copy(), "returns the symbolic table")
+        got = _custom_from_table("table.txt", lead, ncol)
+    lab = f"rows={rows},lead={lead},trail={trail}"
+    ok = [len(got) == rows]
+    for r, g in enumerate(got[:rows]):
+        ok += [g[0] == r, g[1] == r] + [g[2 + c] is cells[r][c] for c in range(ncol)]
+    vx.prove(f"C05/custom_file/one_run_per_row/{lab}", vx.all_of(ok), runs=len(got))
+
+
 EXPRS = ["numpy.arange(3)", "numpy.linspace(1, 2, 30)", "numpy.arange(0.5, 2.0, 0.5)", "numpy.logspace(0, 2, 3)"]
 
 
@@ -496,6 +537,34 @@ def replay(oid, kwargs, model, data):
         return got != {k: vals[k] for k in keys} or list(dn) != keys, {"requested": {k: vals[k] for k in keys}, "models_received": got, "dimension_names": dict(dn)}
     if fn == "custom":
         return _replay_custom(oid, kwargs, model)
+    if fn == "custom_file":
+        import os
+        import tempfile
+
+        import numpy as _np
+
+        rows, lead, trail = kwargs["rows"], kwargs["lead"], kwargs["trail"]
+        cells = [[float(int(model.get(f"c{r}_{c}", 10 * r + c))) for c in range(2)] for r in range(rows)]
+        if len({tuple(c) for c in cells}) < rows:
+            cells = [[10.0 * r + 1, 10.0 * r + 2] for r in range(rows)]
+        tmp = tempfile.mkdtemp(prefix="vx_c05_")
+        path = os.path.join(tmp, "table.txt")
+        try:
+            with open(path, "w") as fh:
+                for r in range(rows):
+                    extra = ["" if bool(model.get(f"empty{r}_{c}", False)) else repr(7.0 + r) for c in range(lead + trail)]
+                    fh.write(",".join(extra[:lead] + [repr(v) for v in cells[r]] + extra[lead:]) + "\n")
+            try:
+                got = _custom_from_table(path, lead, 2)
+                err = None
+            except Exception as e:  # noqa: BLE001
+                got, err = [], f"{type(e).__name__}: {e}"
+        finally:
+            os.remove(path)
+            os.rmdir(tmp)
+        want = [[r, r] + cells[r] for r in range(rows)]
+        have = [[int(g[0]), int(g[1])] + [float(x) for x in g[2:]] for g in got]
+        return have != want, {"table_rows": cells, "runs": have, "error": err}
     if fn == "sequential":
         import pandas as pd
 
